@@ -2511,6 +2511,45 @@ def inline_bound_method_fields(trees, base, log):
             c.body.remove(sst)
 
 
+def expand_seeded_generators(trees, log):
+    """`self.G = Random(x)`  ->  `self.G = Random(); self.G.seed(x)`: random.Random.__init__(x) is documented to do exactly `self.seed(x)`."""
+    n = 0
+
+    def block(stmts):
+        nonlocal n
+        out = []
+        for st in stmts:
+            for field in ('body', 'orelse', 'finalbody'):
+                v = getattr(st, field, None)
+                if isinstance(v, list) and v and isinstance(v[0], ast.stmt) and not isinstance(st, ast.ClassDef):
+                    setattr(st, field, block(v))
+            if isinstance(st, ast.Try):
+                for h in st.handlers:
+                    h.body = block(h.body)
+            val = getattr(st, 'value', None)
+            tg = (st.targets[0] if isinstance(st, ast.Assign) and len(st.targets) == 1 else st.target if isinstance(st, ast.AnnAssign) else None)
+            if isinstance(st, (ast.Assign, ast.AnnAssign)) and isinstance(val, ast.Call) and _txt(val.func) in ('Random', 'random.Random') and len(val.args) == 1 \
+                    and not val.keywords and isinstance(tg, ast.Attribute) and _txt(tg.value) == 'self' and _atomic(val.args[0]):
+                arg = val.args[0]
+                val.args = []
+                out.append(st)
+                call = ast.Expr(value=ast.Call(func=ast.Attribute(value=ast.Attribute(value=ast.Name(id='self', ctx=ast.Load()), attr=tg.attr, ctx=ast.Load()),
+                                                                  attr='seed', ctx=ast.Load()), args=[arg], keywords=[]))
+                ast.copy_location(call, st)
+                ast.fix_missing_locations(call)
+                out.append(call)
+                n += 1
+                continue
+            out.append(st)
+        return out
+    for tree in trees.values():
+        for fn in ast.walk(tree):
+            if isinstance(fn, (ast.FunctionDef, ast.AsyncFunctionDef)):
+                fn.body = block(fn.body)
+    if n:
+        log.append(f'N6 {n} generator(s) created with a seed argument written as creation + seed(..)')
+
+
 def _paths_read(e):
     """texts of the attribute / subscript access paths read by e"""
     out = set()
@@ -3626,6 +3665,7 @@ def run(trees, baseline=None):
     undo_renames(trees, base, log)
     match_to_if(trees, log)
     instantiate_method_factories(trees, base, log)
+    expand_seeded_generators(trees, log)
     inline_bound_method_fields(trees, base, log)
     OBSERVERS.clear()
     OBSERVERS.update(observer_methods(trees))
